@@ -14,6 +14,10 @@ import (
 
 func init() { propFuncs["C03"] = checkC03 }
 
+// dispatchKeys and the helpers that complete its result; they share the result
+// roles (bind, prefix, read keys[, matched]) and are the only callers of PopKey.
+var dispatcherFamily = []string{"(*keymap.Engine).dispatchKeys", "(*keymap.Engine).dispatchCharacter"}
+
 // Action names bound by the default tables that this library does not
 // implement — reviewed one by one (DESIGN.md §5 C03). A bind to one of these
 // runs nothing, which is the documented behaviour for unimplemented bash
@@ -305,11 +309,93 @@ func checkC03(c *Ctx) {
 			continue
 		}
 		d := dcalls[0].(*ssa.Call)
-		ext := map[int]ssa.Value{}
-		for _, ref := range referrersOf(d) {
-			if ex, ok := ref.(*ssa.Extract); ok {
-				ext[ex.Index] = ex
+		// The dispatcher family: dispatchKeys and the helpers that complete its
+		// result (same result roles 0 = bind, 1 = prefix, 2 = read keys). A role
+		// value is a result of one of them or a phi merging role values; ext[i]
+		// is the final one (the value the rest of the function sees).
+		role := map[int]map[ssa.Value]bool{0: {}, 1: {}, 2: {}, 3: {}}
+		for _, dc := range callsTo(f, false, dispatcherFamily...) {
+			for _, ref := range referrersOf(dc.(*ssa.Call)) {
+				if ex, ok := ref.(*ssa.Extract); ok {
+					role[ex.Index][ex] = true
+				}
 			}
+		}
+		for changed := true; changed; {
+			changed = false
+			eachInstr(f, func(in ssa.Instruction) {
+				ph, ok := in.(*ssa.Phi)
+				if !ok {
+					return
+				}
+				for i := range role {
+					if role[i][ph] {
+						continue
+					}
+					all := len(ph.Edges) > 0
+					for _, e := range ph.Edges {
+						if !role[i][e] {
+							all = false
+						}
+					}
+					if all {
+						role[i][ph] = true
+						changed = true
+					}
+				}
+			})
+		}
+		ext := map[int]ssa.Value{}
+		ambiguous := false
+		// the bind is a struct (often a spilled local): a read of one of its
+		// fields is a read of "the dispatched bind" when every value that can
+		// reach the read is a role-0 value
+		isBindRead := func(v ssa.Value, fld string) bool {
+			base, f2, ok := fieldRead(v)
+			if !ok || f2 != fld {
+				return false
+			}
+			if role[0][base] {
+				return true
+			}
+			a, isA := base.(*ssa.Alloc)
+			ld, isL := v.(*ssa.UnOp)
+			if !isA || !isL {
+				return false
+			}
+			vals, zero, simple := reachingStoresX(ld, a)
+			if !simple || zero || len(vals) == 0 {
+				return false
+			}
+			for _, x := range vals {
+				if !role[0][structValue(x)] {
+					return false
+				}
+			}
+			return true
+		}
+		for i, vs := range role {
+			if i == 0 {
+				continue
+			}
+			for v := range vs {
+				final := true
+				for _, ref := range referrersOf(v) {
+					if ph, ok := ref.(*ssa.Phi); ok && vs[ph] {
+						final = false
+					}
+				}
+				if final {
+					if ext[i] != nil {
+						ambiguous = true
+					}
+					ext[i] = v
+				}
+			}
+		}
+		if ambiguous {
+			r.Unk("C03.accounting", fnName(f)+":dispatch-results", p.IPos(d), "the dispatcher results are merged in a way the rule does not follow")
+			continue
 		}
 		isMP := func(in ssa.Instruction) bool { return isCallTo(in, "core.MatchedPrefix") }
 		isMK := func(in ssa.Instruction) bool { return isCallTo(in, "core.MatchedKeys") }
@@ -329,7 +415,7 @@ func checkC03(c *Ctx) {
 		r.Check(!both, "C03.accounting", fnName(f)+":once", p.IPos(d), "exactly one accounting call per path", "two key-accounting calls can run on one path: keys would be pushed back twice")
 		bf := blockFacts(f)
 		from := func(v ssa.Value, idx int) bool {
-			leaves := backSlice(v, &SliceOpts{P: p, IsSource: func(x ssa.Value) bool { return x == ext[idx] }})
+			leaves := backSlice(v, &SliceOpts{P: p, IsSource: func(x ssa.Value) bool { return role[idx][x] }})
 			ok, _ := leavesAll(p, leaves, false)
 			return ok
 		}
@@ -373,11 +459,10 @@ func checkC03(c *Ctx) {
 				return
 			}
 			key := fnName(f) + ":commands[bind.Action]"
-			base, fld, isF := fieldRead(lk.Index)
-			okKey := isF && base == ext[0] && fld == "Action"
+			okKey := isBindRead(lk.Index, "Action")
 			okGuard := false
 			for fc := range factsAt(bf, in) {
-				if b2, f2, ok := fieldRead(fc.Cond); ok && b2 == ext[0] && f2 == "Macro" && !fc.Val {
+				if !fc.Val && isBindRead(fc.Cond, "Macro") {
 					okGuard = true
 				}
 			}
@@ -580,12 +665,29 @@ func checkC03(c *Ctx) {
 			r.Check(ok2, "C03.prefixed-reset", key, p.IPos(in), "prefixed reset on every path after the bind became active", "a path returns with a bind active and the remembered prefix bind still set: after a longer sequence completed, the next unbound key runs the shorter binding's command")
 		})
 	}
+	// the dispatcher family is entered only from the two match functions, whose accounting is checked above
+	r.Rule("C03.dispatcher-callers", "K2", "the helpers completing a dispatchKeys result are called only from MatchMain / MatchLocal, whose key accounting is checked", 1)
+	for _, dn := range dispatcherFamily[1:] {
+		df := p.Func(dn)
+		if df == nil {
+			continue
+		}
+		for _, e := range p.callersOf(df) {
+			cn := fnName(e.Caller.Func)
+			r.CallSites++
+			r.Check(cn == "keymap.MatchMain" || cn == "keymap.MatchLocal", "C03.dispatcher-callers", cn+"→"+dn, p.Pos(e.Pos()), "match function", cn+" runs the dispatcher outside the match functions: the keys it pops are not accounted for")
+		}
+	}
 	r.Rule("C03.popkey-owner", "K2", "core.PopKey (which leaves mustWait untouched) is called only by the dispatcher; any other consumer drops keys with PopForce", 1)
 	if pk := p.Func("core.PopKey"); pk != nil {
 		for _, e := range p.callersOf(pk) {
 			cn := fnName(e.Caller.Func)
 			r.CallSites++
-			r.Check(cn == "(*keymap.Engine).dispatchKeys", "C03.popkey-owner", cn+":core.PopKey", p.Pos(e.Pos()), "dispatcher", cn+" drops a key with PopKey: mustWait stays set, so the key is neither flushed from the macro recorder's view nor recorded (a standalone ESC disappears from vi macros)")
+			owner := false
+			for _, dn := range dispatcherFamily {
+				owner = owner || cn == dn
+			}
+			r.Check(owner, "C03.popkey-owner", cn+":core.PopKey", p.Pos(e.Pos()), "dispatcher", cn+" drops a key with PopKey: mustWait stays set, so the key is neither flushed from the macro recorder's view nor recorded (a standalone ESC disappears from vi macros)")
 		}
 	}
 
